@@ -77,6 +77,17 @@ class Prop(SeqProp):
                             ops.append("flush")
                         elif r < 0.33:
                             ops.append("clear")
+                if kind == "buf" and rng.random() < 0.35:
+                    # the round is cut short: flush() with items still held back, then a new round from serial 0
+                    cut = rng.randint(0, len(ops))
+                    ops = ops[:cut] + ["flush", "wf", "len", "drain"]
+                    m2 = rng.randint(1, 5)
+                    perm2 = list(range(m2))
+                    rng.shuffle(perm2)
+                    for s in perm2:
+                        ops.append(f"put {s} {200 + s}")
+                        if rng.random() < 0.4:
+                            ops.append(rng.choice(["drain", "len", "wf"]))
                 ops += ["drain", "wf", "len"] if kind == "buf" else ["out", "wf", "len", "flush", "out", "wf"]
                 if kind == "buf" and rng.random() < 0.3:
                     ops += ["flush", "wf", "len", "put 0 5", "drain"]
